@@ -337,9 +337,8 @@ static const JanetReg c16_cfuns[] = {
 
 int main(int argc, char **argv) {
     c16_init();
-    /* a write to a pipe / socket whose peer is gone must come back as EPIPE (an error the fiber can see), not kill the
-     * whole interpreter: the usual arrangement of a program that handles its own I/O errors */
-    signal(SIGPIPE, SIG_IGN);
+    /* signal dispositions are left exactly as src/mainclient/shell.c leaves them (it installs none): the harness must be the
+     * same program as the `janet` client as far as SIGPIPE is concerned */
     janet_init();
     JanetTable *env = janet_core_env(NULL);
     janet_cfuns(env, NULL, c16_cfuns);
